@@ -80,6 +80,11 @@ META = {
  'C07d-grdp-right-guard-nonstrict': ('C07', 'split at the second-to-last point of a segment pushes a two-point child whose pop duplicates an index (mp_grdp with min_points near n, or t = 0): the reduction itself is malformed, which is C01s subject - caught by C01; C07s precondition (strictly increasing index list) excludes it', False),
  'C03d-menger-equal-rise-shortcut': ('C03', 'uneven spacing with equal rises on both sides of the corner (collinearity shortcut valid for even spacing only)', False),
  'C08d-worst-filter-stale-min': ('C08', 'rejected knee followed by a knee lower than it but higher than the last kept one (running minimum updated unconditionally)', False),
+ 'C06e-grdp-sibling-push-order': ('C06', 'two sibling segments with exactly equal ordering score (curve symmetric about the split point) and t between the costs of the refinements before and after the tied pair: _grdp pushes the right child first, _rdp_fixed the left one', False),
+ 'C10e-sweep-min-overwritten': ('C10', 'non-monotone curve whose selected knees read low, higher (deleted), in-between (wrongly kept): running minimum overwritten on every iteration of the final sweep (independent rewrite of the idea behind C10b)', False),
+ 'C12e-filter-argsort-inlined': ('C12', 'left/linear/right mode, a multi-member cluster whose score order is not an involution (>= 3 members on a non-monotone stretch, >= 4 on a decreasing one): kr.rank inlined as np.argsort in filter_clusters', False),
+ 'C14e-width-gate-nonstrict': ('C14', 'a retained segment whose normalised width equals 2*tx exactly as a float (and height above ty): candidate gate pdx > 2tx became >=', False),
+ 'C18e-upper-hull-keeps-collinear': ('C18', '>= 3 exactly collinear points on the upper hull itself (pop condition <= 0 became < 0 in graham_scan_upper)', False),
 }
 for name,(pid, needs, strengthened) in META.items():
     d='/verif/seeded/'+name
